@@ -94,3 +94,20 @@ package providers
 //@ at call Add assert[nonce-param-unless-disabled] !p.SkipNonce && arg(Add, 1) == "nonce" && arg(Add, 2) == nonce
 //@ ensures[nonce-sent-unless-disabled] !p.SkipNonce ==> called(Add)
 //@ ensures[login-url-from-configured-endpoint] result == ret(String) && arg(makeLoginURL, 1) == redirectURI && arg(makeLoginURL, 2) == state
+
+// ------------------------------------------------------------------ C06: the login redirect targets the configured authorization endpoint
+//@ func makeLoginURL
+//@ prop C06 C05
+//@ requires[config:login-url-configured] p.LoginURL != nil
+//@ ensures[scheme-host-path-of-the-configured-endpoint] result.Scheme == old(p.LoginURL.Scheme) && result.Host == old(p.LoginURL.Host)
+//@     && result.Path == old(p.LoginURL.Path) && result.Opaque == old(p.LoginURL.Opaque) && result.User == old(p.LoginURL.User)
+//@ ensures[only-the-query-is-built] result.RawQuery == ret(Encode)
+//@ at call Set#0 assert[redirect-uri-param] arg(Set#0, 1) == "redirect_uri" && arg(Set#0, 2) == redirectURI
+//@ at call Add#1 assert[state-param] arg(Add#1, 1) == "state" && arg(Add#1, 2) == state
+
+// ------------------------------------------------------------------ C14: the default code redemption
+//@ func (*ProviderData).Redeem
+//@ prop C14
+//@ ensures[no-code-no-session] code == "" ==> ret1 == ErrMissingCode && ret0 == nil
+//@ ensures[request-error-means-no-session] called(Error#1) ==> ret1 == ret(Error#1) && ret0 == nil && ret(Error#0) != nil
+//@ ensures[error-means-no-session] ret1 != nil ==> ret0 == nil
